@@ -155,7 +155,7 @@ def _text_between(lines, a, b):
     return "\n".join(parts)
 
 
-def check_tree(root, toks, lines, end_pos_expected=None) -> None:
+def check_tree(root, toks, lines, end_pos_expected=None, src=None) -> None:
     """assertions of the property over the tree `root` for expected tokens `toks` (0-based (line, col) pairs)"""
     leaves = []
     inner = []
@@ -184,10 +184,14 @@ def check_tree(root, toks, lines, end_pos_expected=None) -> None:
         if leaf.span[0] < prev_end:
             raise Violation(f"backwards :: span {leaf.span} starts before the previous token's end {prev_end}")
         prev_end = leaf.span[1]
-        got = leaf.get_orig_text(lines)
         exp = _text_between(lines, a, b)
-        if got != exp:
-            raise Violation(f"orig-text :: get_orig_text of {name} at {want} returns {got!r}, the matched characters are {exp!r}")
+        for text_form in ((lines,) if src is None or isinstance(src, list) else (lines, src)):
+            try:
+                got = leaf.get_orig_text(text_form)
+            except AssertionError as e:
+                raise Violation(f"orig-text :: get_orig_text({type(text_form).__name__}) of {name} at {want} raises AssertionError: {e}")
+            if got != exp:
+                raise Violation(f"orig-text :: get_orig_text({type(text_form).__name__}) of {name} at {want} returns {got!r}, the matched characters are {exp!r}")
     # following-token position for empty nodes: the start of the next leaf, or the end of input position
     for node, i0, i1 in inner:
         if i0 is None or i1 < i0:
@@ -197,11 +201,15 @@ def check_tree(root, toks, lines, end_pos_expected=None) -> None:
         want = (leaves[i0].span[0], leaves[i1].span[1])
         if node.span != want:
             raise Violation(f"inner-span :: node {node.name} has span {node.span}, its tokens run {want}")
-        got = node.get_orig_text(lines)
         a = toks[i0][1]
         b = toks[i1][2]
-        if got != _text_between(lines, a, b):
-            raise Violation(f"inner-orig-text :: get_orig_text of node {node.name} {node.span} returns {got!r}")
+        for text_form in ((lines,) if src is None or isinstance(src, list) else (lines, src)):
+            try:
+                got = node.get_orig_text(text_form)
+            except AssertionError as e:
+                raise Violation(f"inner-orig-text :: get_orig_text({type(text_form).__name__}) of node {node.name} {node.span} raises AssertionError: {e}")
+            if got != _text_between(lines, a, b):
+                raise Violation(f"inner-orig-text :: get_orig_text({type(text_form).__name__}) of node {node.name} {node.span} returns {got!r}")
 
 
 def h_positions(n_lines: int, line0: str, line1: str, line2: str, k0: int, k1: int, k2: int, k3: int, k4: int,
@@ -355,7 +363,7 @@ def concrete_positions_check(text_lines: List[str]) -> Optional[str]:
         if err_line is not None:
             return f"no LexicalError ({form} input) though line {err_line} has an unmatched character"
         try:
-            check_tree(root, toks, text_lines)
+            check_tree(root, toks, text_lines, src=src)
         except Violation as v:
             return f"{v} ({form} input; text {text_lines!r})"
     return None
@@ -375,6 +383,9 @@ def h_concrete_texts(c0: int, c1: int, shard=None) -> None:
     import itertools
     from vf.xh import concrete
     alphabet = ["a", " ", "\n", "+", "!", "<<", ">>", "#"]
+    if shard.get("exotic"):
+        # white space that str.splitlines() treats as a line break but the tokenizer (split on '\n') does not
+        alphabet = ["a", " ", "\n", "\f", "\r", "\u2028", "\x0b", "\x85", "+", "#"]
     n = shard["n"]
     k = len(alphabet) if shard.get("with_bad") else len(alphabet) - 1
     reject_unless(0 <= c0 < k and 0 <= c1 < k)
@@ -400,4 +411,6 @@ def jobs(tier: str) -> List[Job]:
                       per_path_timeout=30, label=f"stub-matcher:{n_lines}lines"))
     for n in range(0, 8 if t else 7):
         js.append(Job(__name__, "h_concrete_texts", shard={"n": n, "with_bad": n <= 4}, budget_s=1500 if t else 100, label=f"real-regex:texts-of-{n}-symbols", must_exhaust=True))
+    for n in ((2, 3, 4, 5) if t else (2, 3, 4)):
+        js.append(Job(__name__, "h_concrete_texts", shard={"n": n, "with_bad": n <= 3, "exotic": True}, budget_s=1500 if t else 100, label=f"real-regex:exotic-whitespace-{n}-symbols", must_exhaust=True))
     return js
